@@ -72,6 +72,15 @@ def run(ctx):
                      flog=[dict(kind=["KI", "Err"][n % 2], where="update", stage="sim", i=(N - 1), at=["pre", "post"][(n // 2) % 2])])
         jobs.append(("script", dict(cfg=dict(s["cfg"]), tdts=s["tdts"], simdts=s["simdts"], flog=s["flog"],
                                     probes=[0, 2, 3][n % 3], screening=bool(n % 2), progress=10 ** 9, prior=prior)))
+    # shapes of the requested output path: sub-directory, ./, absolute, several dots, no extension, dotted
+    # directory without extension — with and without a pre-existing file at the path
+    outnames = ["sub/out.h5", "./out.h5", "ABS:out.h5", "out.v2.h5", "out", "run.d/out", "deep/er/out.hdf5"]
+    fl = [dict(kind="KI", where="update", stage="sim", i=1, at="pre")]
+    for n, on in enumerate(outnames):
+        for foreign in ([], ["o0"], ["t0"], ["o0", "o1"]):
+            jobs.append(("script", dict(cfg=dict(k=2, solveT=3, skipT=0, out="path", foreign=foreign, bad="none"), tdts=[], simdts=[1, 1, 1],
+                                        flog=(fl if (n + len(foreign)) % 2 else []), probes=[0, 2][n % 2], screening=False, progress=10 ** 9,
+                                        outname=on)))
     from harness import runnat
     jobs += [("natural", p) for p in natural_matrix(ctx)]
     traces = rf.replay_all(ctx, jobs)
